@@ -13,7 +13,7 @@ from vmon.res import Result, exc_name
 
 ID = "C11"
 LEVEL = "exploration"
-CASES = {"quick": 20000, "thorough": 400000}
+CASES = {"quick": 20000, "thorough": 600000}
 RULE = ("seeded random vectors of every orderable dtype (bool,int,float,str,>=50-char str,fixed-width str,date,"
         "datetime,object strings/bools with None) of length 0-30 with heavy ties and NA patterns none/some/first/"
         "last/all x {sort dir=1,-1; rank min,max,ordinal; unique}; non-trivial = length >= 2; distinct = distinct "
